@@ -61,6 +61,9 @@ fn visit_statement(stmt: &Statement, reports: &mut ReportCollection) {
             }
         }
         IfThenElse { cond, .. } => visit_expression(cond, reports),
+        // The increment of a loop counter introduced for an anonymous component is not written
+        // by the user.
+        Substitution { var, .. } if var.is_generated_counter() => {}
         Substitution { rhe, .. } => visit_expression(rhe, reports),
         Return { value, .. } => visit_expression(value, reports),
         Assert { arg, .. } => visit_expression(arg, reports),
